@@ -815,3 +815,15 @@ Theorem C04_no_livelock_upload : forall c i x r,
   forall n, livelock c (map Ev (ff_script i n)) (model_obs_d c [] (map Ev (ff_script i n))) = false.
 Proof. exact no_livelock_upload. Qed.
 Print Assumptions C04_no_livelock_upload.
+
+(* Non-vacuity of the clauses of SpecTime.v: hand-made observed traces evaluate to class 10 (the Do of an upload
+   returns ok with the 2.31 that just arrived, 3700 units after its start, request deadline 9000), 11 (the same
+   without request deadline), no class (request deadline 2000: the caller is overdue), 12 (a loss-free script of 60
+   deliveries, budget 4 * 6, still emitting blocks) and 0 (the same script cut after 19 deliveries). *)
+Example C04_spec_time_classes_reachable :
+  c04_class_t reach_cfg [(0%nat, 9000)] reach_es reach_os (untimed reach_es) = 10%N /\
+  c04_class_t reach_cfg [] reach_es reach_os (untimed reach_es) = 11%N /\
+  c04_class_t reach_cfg [(0%nat, 2000)] reach_es reach_os (untimed reach_es) = 0%N /\
+  c04_class_t reach_cfg [] reach_long_es reach_long_os (untimed reach_long_es) = 12%N /\
+  c04_class_t reach_cfg [] (firstn 20 reach_long_es) (firstn 20 reach_long_os) (untimed (firstn 20 reach_long_es)) = 0%N.
+Proof. exact spec_time_classes_reachable. Qed.
